@@ -17,15 +17,23 @@ const loggerPrefix = "(*github.com/jmsadair/raft/logging.Logger)."
 
 func init() {
 	intercepts = map[string]handler{
-		"(*sync.Mutex).Lock":          icMutexLock,
-		"(*sync.Mutex).Unlock":        icMutexUnlock,
-		"sync.NewCond":                icNewCond,
-		"(*sync.Cond).Wait":           icCondWait,
-		"(*sync.Cond).Broadcast":      icCondSignal,
-		"(*sync.Cond).Signal":         icCondSignal,
-		"(*sync.WaitGroup).Add":       icNop,
-		"(*sync.WaitGroup).Done":      icNop,
-		"(*sync.WaitGroup).Wait":      icNop,
+		"(*sync.Mutex).Lock":     icMutexLock,
+		"(*sync.Mutex).Unlock":   icMutexUnlock,
+		"sync.NewCond":           icNewCond,
+		"(*sync.Cond).Wait":      icCondWait,
+		"(*sync.Cond).Broadcast": icCondSignal,
+		"(*sync.Cond).Signal":    icCondSignal,
+		"(*sync.WaitGroup).Add":  icNop,
+		"(*sync.WaitGroup).Done": icNop,
+		"(*sync.WaitGroup).Wait": icNop,
+		// transport.go glue (vh_Wire): the transport's RWMutex only orders Run/Shutdown against senders; the harness
+		// is single-threaded, so read-locking is a no-op; a gRPC status error is an opaque non-nil error.
+		"(*sync.RWMutex).RLock":   icNop,
+		"(*sync.RWMutex).RUnlock": icNop,
+		"context.Background":      func(ex *Exec, fn *ssa.Function, a []Value) Value { return &IfaceVal{} },
+		"google.golang.org/grpc/status.Error": func(ex *Exec, fn *ssa.Function, a []Value) Value {
+			return ex.newError("grpc-status", nil)
+		},
 		"fmt.Errorf":                  icErrorf,
 		"fmt.Sprintf":                 icSprintf,
 		"fmt.Sprint":                  icSprintf,
